@@ -393,77 +393,146 @@ def run(ctx):
 # whole executions: Model/LinesExec.lean (cstep / crun, srvLoop / srvFeed / srvEof, exchange)
 # =================================================================================================
 
-def _run_real_sockets(ctx):
-    """the one thing in-memory streams cannot show: what the kernel does with data that is still unread when the sender closes.  Over a
-    real localhost TCP connection and a real unix socket the client writes a burst and closes while the peer has not read yet; the peer
-    must still read every message, then a clean end-of-stream (a connection that is reset on close loses them)."""
+def _rs_message(seed, i, n):
+    """message i of a real-socket burst: n bytes, all byte values, reproducible from the case"""
+    import random as _random
+    return _random.Random(f"C19:rs:{seed}:{i}").randbytes(n)
+
+
+async def _real_socket_burst(kind, spec):
+    """one real connection (localhost TCP / unix socket): the client made by its own connect() writes a burst and calls close(); the peer
+    starts reading only `pause` seconds after it accepted.  spec: {"messages": [hex...]} (a fixed burst) or {"fill": {"seed", "len", "extra",
+    "cap"}} (messages of `len` bytes until the tail of the burst stays in the client's user-space write buffer - the kernel buffers and the
+    peer's StreamReader are full -, then `extra` more), "pause".  -> (messages written (write() returned normally), what the peer read)"""
     import os
+    import shutil
+    import socket
     import tempfile
 
     from gallia.transports.base import TargetURI
     from gallia.transports.tcp import TCPLinesTransport
     from gallia.transports.unix import UnixLinesTransport
 
-    rng = ctx.rng
-    msgs = [bytes([rng.randrange(256) for _ in range(rng.choice([1, 2, 7, 300]))]) for _ in range(20)]
+    pause = spec["pause"]
+    got = []
+    done = asyncio.Event()
 
-    async def one(kind):
-        got = []
-        done = asyncio.Event()
-
-        async def handler(r, w):
-            await asyncio.sleep(0.15)   # a peer that is busy: everything arrives (and the sender closes) before it reads
-            try:
-                while True:
-                    line = await r.readline()
-                    if not line.endswith(b"\n"):
-                        got.append("eos" if line == b"" else "tail " + line.hex())
-                        break
-                    got.append("msg " + line.strip().decode())
-            except Exception as e:  # noqa: BLE001
-                got.append("exc:" + type(e).__name__)
-            done.set()
-            w.close()
-
-        td = tempfile.mkdtemp(prefix="verif-c19-", dir="/var/tmp")
+    async def handler(r, w):
+        await asyncio.sleep(pause)   # a peer that is busy: everything is written (and the sender closes) before it reads
         try:
-            if kind == "tcp-lines":
-                srv = await asyncio.start_server(handler, "127.0.0.1", 0)
-                port = srv.sockets[0].getsockname()[1]
-                tr = await TCPLinesTransport.connect(TargetURI(f"tcp-lines://127.0.0.1:{port}"))
+            while True:
+                line = await r.readline()
+                if not line.endswith(b"\n"):
+                    got.append("eos" if line == b"" else f"tail {len(line)} bytes")
+                    break
+                got.append("msg " + line.strip().decode())
+        except Exception as e:  # noqa: BLE001
+            got.append("exc:" + type(e).__name__)
+        done.set()
+        w.close()
+
+    sent = []
+    td = tempfile.mkdtemp(prefix="verif-c19-", dir="/var/tmp")
+    try:
+        if kind == "tcp-lines":
+            srv = await asyncio.start_server(handler, "127.0.0.1", 0)
+            if "fill" in spec:  # small kernel buffers keep the burst that fills them small (inherited by the accepted socket)
+                srv.sockets[0].setsockopt(socket.SOL_SOCKET, socket.SO_RCVBUF, 65536)
+            port = srv.sockets[0].getsockname()[1]
+            tr = await TCPLinesTransport.connect(TargetURI(f"tcp-lines://127.0.0.1:{port}"))
+        else:
+            path = os.path.join(td, "s.sock")
+            srv = await asyncio.start_unix_server(handler, path)
+            tr = await UnixLinesTransport.connect(TargetURI(f"unix-lines://{path}"))
+        try:
+            if "fill" in spec:
+                f = spec["fill"]
+                sock = tr.writer.get_extra_info("socket")
+                if sock is not None and kind == "tcp-lines":
+                    sock.setsockopt(socket.SOL_SOCKET, socket.SO_SNDBUF, 65536)
+                extra = None
+                while len(sent) < f["cap"] and (extra is None or extra > 0):
+                    m = _rs_message(f["seed"], len(sent), f["len"])
+                    await asyncio.wait_for(tr.write(m), 10 + pause)
+                    sent.append(m)
+                    if extra is not None:
+                        extra -= 1
+                    elif tr.writer.transport.get_write_buffer_size() > 0:
+                        await asyncio.sleep(0.05)  # the peer's stream reader takes what it has room for
+                        if tr.writer.transport.get_write_buffer_size() > 0:
+                            extra = f["extra"]
+                queued = tr.writer.transport.get_write_buffer_size()
             else:
-                path = os.path.join(td, "s.sock")
-                srv = await asyncio.start_unix_server(handler, path)
-                tr = await UnixLinesTransport.connect(TargetURI(f"unix-lines://{path}"))
-            for m in msgs:
-                await tr.write(m)
-            await tr.close()
+                for h in spec["messages"]:
+                    m = bytes.fromhex(h)
+                    await tr.write(m)
+                    sent.append(m)
+                queued = tr.writer.transport.get_write_buffer_size()
             try:
-                await asyncio.wait_for(done.wait(), 10)
+                await asyncio.wait_for(tr.close(), 20 + pause)
             except (TimeoutError, asyncio.TimeoutError):
-                got.append("peer-never-saw-the-end")
-            srv.close()
-        finally:
-            import shutil
-            shutil.rmtree(td, ignore_errors=True)
-        return got
-
-    for kind in ("tcp-lines", "unix-lines"):
-        loop = asyncio.new_event_loop()
+                got.append("close-never-returned")
+        except Exception as e:  # noqa: BLE001
+            got.append("client-exc:" + type(e).__name__)
+            queued = -1
         try:
-            got = loop.run_until_complete(one(kind))
-        finally:
-            loop.close()
-        want = ["msg " + m.hex() for m in msgs] + ["eos"]
+            await asyncio.wait_for(done.wait(), 20 + pause)
+        except (TimeoutError, asyncio.TimeoutError):
+            got.append("peer-never-saw-the-end")
+        srv.close()
+    finally:
+        shutil.rmtree(td, ignore_errors=True)
+    return sent, got, queued
+
+
+def _eval_real_socket_bursts(ctx, cases):
+    """cases: (kind, spec); all connections of one call run concurrently in one (real-time) loop -> [(sent, got, queued)]"""
+    async def all_():
+        return await asyncio.gather(*[_real_socket_burst(kind, spec) for kind, spec in cases])
+
+    loop = asyncio.new_event_loop()
+    try:
+        runs = loop.run_until_complete(all_())
+    finally:
+        loop.close()
+    for (kind, spec), (sent, got, queued) in zip(cases, runs):
+        want = ["msg " + m.hex() for m in sent] + ["eos"]
+        late = "fill" in spec
         ctx.ev()
-        ctx.kind("real-socket:" + kind)
-        ctx.nontrivial(("real-socket", kind))
+        ctx.kind(f"real-socket:{kind}" + (f":burst-beyond-kernel-buffers:peer-reads-after-{spec['pause']}s" if late else ""))
+        ctx.nontrivial(("real-socket", kind, late, spec["pause"]))
+        if late:
+            ctx.notes.setdefault("real-socket-late-reader", {})[f"{kind}:{spec['pause']}"] = {
+                "messages": len(sent), "bytes_in_client_write_buffer_at_close": queued}
         if got != want:
             i = next((k for k, (a, b) in enumerate(zip(got, want)) if a != b), min(len(got), len(want)))
-            ctx.disagree(f"lines-real-socket:{kind}:messages-lost-at-close", f"{kind} over a real socket: {len(msgs)} messages written, then close(); the peer (reading late) "
-                         f"got {len([g for g in got if g.startswith('msg')])} of them and then {got[i] if i < len(got) else 'nothing'} where {want[i]} was due",
-                         {"side": "real-socket", "scheme": kind, "messages": [m.hex() for m in msgs]}, impl=got[:25], model=want[:25], spec_violated=True,
-                         site="TCPTransport.connect / close")
+            n_ok = len([g for g in got if g.startswith("msg")])
+            case = {"side": "real-socket", "scheme": kind, "pause": spec["pause"], "written": len(sent),
+                    "bytes_in_client_write_buffer_at_close": queued}
+            case.update({"fill": spec["fill"]} if late else {"messages": spec["messages"]})
+            ctx.disagree(f"lines-real-socket:{kind}:messages-lost-at-close" + (":tail-still-in-write-buffer" if late else ""),
+                         f"{kind} over a real socket: {len(sent)} messages written (every write() returned normally), then close(); the peer "
+                         f"(reading after {spec['pause']} s) got {n_ok} of them and then `{_short(got[i], 60) if i < len(got) else 'nothing'}` where "
+                         f"message {i} / end-of-stream was due",
+                         case, impl={"read_by_peer": n_ok, "then": [_short(g, 60) for g in got[i: i + 2]]},
+                         model={"read_by_peer": len(sent), "then": ["eos"]}, spec_violated=True, site="TCPTransport / UnixTransport connect / close")
+    return runs
+
+
+def _run_real_sockets(ctx):
+    """what in-memory streams cannot show: what the kernel and the stream writer do with data that is still unread / unsent when the sender
+    closes.  Over a real localhost TCP connection and a real unix socket the client writes a burst and closes while the peer has not read
+    yet; the peer must still read every message, then a clean end-of-stream (a connection that is reset or aborted on close loses them).
+    (a) a small burst (fits the kernel buffers), peer reads after 0.15 s; (b) a burst of 4095-byte messages that goes beyond the kernel
+    buffers and the peer's StreamReader, so that its tail is still in the client's user-space write buffer at close(), and a peer that starts
+    reading only after a pause longer than any plausible bound an implementation may put on its shutdown."""
+    rng = ctx.rng
+    msgs = [bytes([rng.randrange(256) for _ in range(rng.choice([1, 2, 7, 300]))]) for _ in range(20)]
+    cases = [(kind, {"messages": [m.hex() for m in msgs], "pause": 0.15}) for kind in ("tcp-lines", "unix-lines")]
+    for pause in ctx.pick([2.5], [0.2, 1.2, 2.5, 5.0]):
+        for kind in ("tcp-lines", "unix-lines"):
+            cases.append((kind, {"fill": {"seed": f"{ctx.seed}:{kind}:{pause}", "len": 4095, "extra": 4, "cap": 4000}, "pause": pause}))
+    _eval_real_socket_bursts(ctx, cases)
 
 
 class _CountWriter(MemWriter):
@@ -1299,6 +1368,9 @@ _CLAUSES = [
      "a read that times out consumes nothing, so the next read returns the complete next message"),
     (("lines-client:write-bytes-differ", "lines-client-seq:write", "lines-client-seq:request-wrote-other-bytes", "lines-exchange:request-bytes-differ"),
      "any sequence of messages of any content and length (1..4095 bytes) is delivered to the peer as exactly that sequence of byte strings (write emits hex + newline)"),
+    (("lines-real-socket",),
+     "any sequence of messages is delivered to the peer as exactly that sequence of byte strings (every message for which write() returned reaches "
+     "the peer, also when the sender closes before the peer has read), and end-of-stream is distinguishable from a message"),
     (("lines-server", "lines-exchange"),
      "in the virtual ECU's server loop every message is delivered intact, in order, one per read, regardless of segmentation / coalescing: one reply "
      "line per answered request, none for an unanswered one, nothing for an unterminated tail"),
@@ -1428,6 +1500,17 @@ def replay(ctx, payload):
         print(f"impl : client reads {_short(r['got'], 500)}; server loop {r.get('server_end')}")
         print(f"model: handed over = the requests sent, in order; client reads = the replies handle_request gave: "
               f"{['msg ' + b.hex() for _a, b in r['log'] if isinstance(b, bytes) and b]}")
+    elif side == "real-socket":
+        spec = {"pause": c.get("pause", 0.15)}
+        spec.update({"fill": c["fill"]} if "fill" in c else {"messages": c["messages"]})
+        print(f"case    : {c['scheme']} client over a real socket writes " + (f"messages of {c['fill']['len']} bytes until the tail of the burst stays in its "
+              f"user-space write buffer (+{c['fill']['extra']})" if "fill" in c else f"{len(c['messages'])} messages") +
+              f", then close(); the peer starts reading {spec['pause']} s after accepting")
+        (sent, got, queued), = _eval_real_socket_bursts(ctx, [(c["scheme"], spec)])
+        n_ok = len([g for g in got if g.startswith("msg")])
+        print(f"impl : {len(sent)} messages written ({queued} bytes still in the client's write buffer at close()); the peer read {n_ok} messages, "
+              f"then {[_short(g, 60) for g in got[n_ok: n_ok + 2]]}")
+        print(f"model: the peer reads {len(sent)} messages, then ['eos']")
     else:
         import json
         print(json.dumps(finding, indent=1)[:4000])
